@@ -214,6 +214,8 @@ pub fn dispatch(scratch: &Path, meta: usize, campaign: &str, id: &str, seed: u64
     match campaign {
         "ops" => case_ops(scratch, meta, id, seed, len, &[Pol::AlwaysFlush]),
         "policy-ops" => case_ops(scratch, meta, id, seed, len, &ALL_POLS),
+        "damage" => crate::damage::case_damage(scratch, meta, id, seed, len, false, None),
+        "damage-aimed" => crate::damage::case_damage(scratch, meta, id, seed, len, true, None),
         "crash" => crate::crash::case_crash(scratch, meta, id, seed, len, &crash_cfg(false), None),
         "crash-policies" => crate::crash::case_crash(scratch, meta, id, seed, len, &crash_cfg(true), None),
         other => panic!("unknown campaign {}", other),
@@ -231,6 +233,8 @@ pub fn crash_cfg(all_policies: bool) -> crate::crash::CrashCfg {
 pub fn dispatch_replay(scratch: &Path, meta: usize, campaign: &str, case: &Case) -> CaseResult {
     let id = if case.id.is_empty() { "replay".to_string() } else { case.id.clone() };
     match campaign {
+        "damage" => crate::damage::case_damage(scratch, meta, &id, 1, 0, false, Some(case)),
+        "damage-aimed" => crate::damage::case_damage(scratch, meta, &id, 1, 0, true, Some(case)),
         "crash" => crate::crash::case_crash(scratch, meta, &id, 1, 0, &crash_cfg(false), Some(case)),
         "crash-policies" => crate::crash::case_crash(scratch, meta, &id, 1, 0, &crash_cfg(true), Some(case)),
         _ => case_replay(scratch, meta, case),
